@@ -303,6 +303,7 @@ func init() {
 				}
 			}
 			u = append(u, c16bUnits(C16BArg{K: kB, Reads: rB, Bound: bound}, 32)...)
+			u = append(u, c16bUnits(C16BArg{K: 2, Reads: 1, Bound: bound + 1}, 16)...)
 			u = append(u, c16bUnits(C16BArg{K: 1, Reads: 1, Bound: -1}, 8)...)
 			u = append(u, c16bUnits(C16BArg{K: 2, Reads: 1, Bound: bound, Global: true}, 8)...)
 			return u
